@@ -611,6 +611,17 @@ impl Kanata {
         self.sequence_input_mode = cfg.options.sequence_input_mode;
         self.sequence_timeout = cfg.options.sequence_timeout;
         self.layout = cfg.layout;
+        // Effects of held custom actions are ended by their release handlers, which ran off the
+        // states of the old layout. Those states are gone now, so end the effects here.
+        self.scroll_state = None;
+        self.hscroll_state = None;
+        self.move_mouse_state_vertical = None;
+        self.move_mouse_state_horizontal = None;
+        self.movemouse_buffer = None;
+        self.move_mouse_speed_modifiers.clear();
+        self.unmodded_keys.clear();
+        self.unmodded_mods = UnmodMods::empty();
+        self.unshifted_keys.clear();
         self.key_outputs = cfg.key_outputs;
         self.layer_info = cfg.layer_info;
         self.sequences = cfg.sequences;
